@@ -338,6 +338,52 @@ def check_case(case, ctx):
     instance = build_instance(inst)
     for b in sorted(obs.BUILDERS):
         check_builder(ctx, inst, instance, b)
+    # graphs built earlier are not affected by building other graphs
+    first = {b: obs.BUILDERS[b](instance) for b in sorted(obs.BUILDERS)}
+    other = {
+        "durations": inst["durations"] + [[1, 2, 3]],
+        "machines": inst["machines"] + [[[0], [0], [0]]],
+        "name": "other",
+        "meta": {},
+        "ints": True,
+    }
+    other_instance = build_instance(other)
+    for b in sorted(obs.BUILDERS):
+        obs.BUILDERS[b](other_instance)
+    for b, g in first.items():
+        nodes, _req, _opt = expected_graph(inst, b)
+        ctx.check(
+            real_nodes(g) == nodes and all(g.nodes[i].node_id == i for i in range(len(g.nodes))),
+            "earlier-graph-changed:" + b,
+            f"{b}: a graph built earlier changed after graphs of another instance were built: nodes {real_nodes(g)[-3:]}",
+        )
+    # a graph composed from the public building blocks, machine nodes added
+    # in reverse order
+    from job_shop_lib.graphs import JobShopGraph, Node, NodeType, add_operation_machine_edges
+
+    g = JobShopGraph(instance)
+    n_m = instance.num_machines
+    for x in reversed(range(n_m)):
+        g.add_node(Node(node_type=NodeType.MACHINE, machine_id=x))
+    add_operation_machine_edges(g)
+    node_of = {nd.machine_id: nd.node_id for nd in g.nodes_by_type[NodeType.MACHINE]}
+    want = set()
+    k = 0
+    for j, row in enumerate(inst["machines"]):
+        for ms in row:
+            for x in ms:
+                want.add((k, node_of[x]))
+                want.add((node_of[x], k))
+            k += 1
+    got = set(g.graph.edges())
+    ctx.check(
+        got == want,
+        "composed-graph-edges",
+        f"add_operation_machine_edges on a graph whose machine nodes were added in reverse order: "
+        f"missing {sorted(want - got)[:4]}, extra {sorted(got - want)[:4]}",
+    )
+    for x in range(n_m):
+        ctx.check(g.get_machine_node(x).machine_id == x, "get-machine-node", f"get_machine_node({x}) returned machine {g.get_machine_node(x).machine_id}")
     ctx.label(*gen.inst_labels(inst))
     m = inst["machines"]
     shared = False
